@@ -25,6 +25,7 @@ RULE = ("ops from harness/src/c13.rs, one splitmix64 PRNG (VERIF_SEED): `stream`
         "`run` = a random source tree backed up 3 (thorough 5) times on fresh repositories: no delay/default packs, then seeded delays (<=1.5 ms per backend call) x data/tree pack sizes from {1 B, 200 B, 5 kB, 4 MB}; "
         "`hist` = backup A, parent-based backup B, forget A, prune (instant delete, repack) under the same variations; `chk` = check --read-data with a missing tree and 250 ms pack reads. "
         "Wide shapes (quick 2+2, thorough 12+6): streams of one directory with 1100-1600 distinct sub-directories / that many distinct roots / shared wide sub-directories (range syntax `1=2-1301;2-1301=`), and `run`/`hist` over a source directory with 1100-1400 distinct sub-directories (real check / prune_plan walk it). "
+        "`snaps` (quick 1, thorough 4) = 1100-1500 snapshots with pairwise different root trees (stored through hooks): real check + prune_plan must return, check clean. "
         "Repack cases (quick 2, thorough 12; also 1 in 6 random run tokens): 5th run-token field `r<ms>` = every pack write sleeps ms..2.5 ms milliseconds and the prune repacks EVERY pack with fast_repack (Packer::add_raw from the rayon workers); sources with 45-80 shared chunks, one blob per pack, pools of >= 2 workers. "
         "Every run token / stream seed carries a rayon pool field (0 = default, n = ThreadPool::install of n workers, g<n> = child process with RAYON_NUM_THREADS=n pinned to n CPUs). Non-trivial = a stream that yields >= 2 trees or any run/hist/chk op; distinct by hash of (op, observation).")
 EXPLANATION = ("Theorems (all schedules of the models): TreeStreamerOnce yields exactly the reachable trees once each, ends iff nothing is outstanding (no deadlock, no early end), terminates within |reachable| steps; "
